@@ -205,6 +205,22 @@ func findIIFE(fset *token.FileSet, f *ast.File, src []byte, n int) *srcEdit {
 		if edit != nil {
 			return false
 		}
+		// `if init; cond {...}` whose init holds an inlined literal: `{ init; if cond {...} }`
+		if is, ok := node.(*ast.IfStmt); ok && is.Init != nil {
+			has := false
+			ast.Inspect(is.Init, func(n ast.Node) bool {
+				if c, ok := n.(*ast.CallExpr); ok {
+					if _, ok := iife(c); ok {
+						has = true
+					}
+				}
+				return !has
+			})
+			if has {
+				edit = &srcEdit{off(is.Pos()), off(is.End()), "{\n" + text(is.Init.Pos(), is.Init.End()) + "\nif " + text(is.Cond.Pos(), is.End()) + "\n}"}
+				return false
+			}
+		}
 		tryHoist(node)
 		if edit != nil {
 			return false
@@ -236,7 +252,7 @@ func findIIFE(fset *token.FileSet, f *ast.File, src []byte, n int) *srcEdit {
 				return true
 			}
 			fl, ok := iife(st.Rhs[0])
-			if !ok || named(fl) || nres(fl) == 0 || nres(fl) != len(st.Lhs) {
+			if !ok || nres(fl) == 0 || nres(fl) != len(st.Lhs) {
 				return true
 			}
 			var lhs []string
@@ -244,18 +260,38 @@ func findIIFE(fset *token.FileSet, f *ast.File, src []byte, n int) *srcEdit {
 				lhs = append(lhs, text(l.Pos(), l.End()))
 			}
 			// results go through fresh temporaries (the literal's body may declare names that shadow the targets)
-			var tmps, decls []string
+			var tmps, decls, names []string
+			inner := ""
 			i := 0
 			for _, fld := range fl.Type.Results.List {
 				t := text(fld.Type.Pos(), fld.Type.End())
-				tmp := fmt.Sprintf("%sResult%d", label, i)
-				tmps = append(tmps, tmp)
-				decls = append(decls, "var "+tmp+" "+t)
-				i++
+				cnt := len(fld.Names)
+				if cnt == 0 {
+					cnt = 1
+				}
+				for k := 0; k < cnt; k++ {
+					tmp := fmt.Sprintf("%sResult%d", label, i)
+					tmps = append(tmps, tmp)
+					decls = append(decls, "var "+tmp+" "+t)
+					if len(fld.Names) > 0 {
+						names = append(names, fld.Names[k].Name)
+						inner += "var " + fld.Names[k].Name + " " + t + "\n_ = " + fld.Names[k].Name + "\n"
+					}
+					i++
+				}
 			}
+			if len(names) != 0 && len(names) != len(tmps) {
+				return true
+			}
+			bad := false
 			body := rewrite(fl, func(r *ast.ReturnStmt) string {
+				if len(names) > 0 && len(r.Results) == 0 {
+					// bare return of named results
+					return "{\n" + strings.Join(tmps, ", ") + " = " + strings.Join(names, ", ") + "\nbreak " + label + "\n}"
+				}
 				if len(r.Results) != len(tmps) {
-					return "break " + label // cannot happen for unnamed results
+					bad = true
+					return "break " + label
 				}
 				var rs []string
 				for _, e := range r.Results {
@@ -263,7 +299,10 @@ func findIIFE(fset *token.FileSet, f *ast.File, src []byte, n int) *srcEdit {
 				}
 				return "{\n" + strings.Join(tmps, ", ") + " = " + strings.Join(rs, ", ") + "\nbreak " + label + "\n}"
 			})
-			edit = &srcEdit{off(st.Pos()), off(st.End()), strings.Join(decls, "\n") + "\n" + label + ":\nfor {\n" + body + "\nbreak " + label + "\n}\n" + strings.Join(lhs, ", ") + " " + st.Tok.String() + " " + strings.Join(tmps, ", ")}
+			if bad {
+				return true
+			}
+			edit = &srcEdit{off(st.Pos()), off(st.End()), strings.Join(decls, "\n") + "\n" + label + ":\nfor {\n" + inner + body + "\nbreak " + label + "\n}\n" + strings.Join(lhs, ", ") + " " + st.Tok.String() + " " + strings.Join(tmps, ", ")}
 		}
 		return edit == nil
 	})
